@@ -37,6 +37,19 @@ type Options struct {
 	// two-child branch node of the storage / account trie collapses (collapse.go).
 	// Drawn after everything else: worlds without the option are unaffected.
 	Collapse bool
+	// BigWithdrawals (opt-in, used by C32) appends to about half of the blocks of a
+	// Shanghai+ world one or two withdrawals with hostile amounts: full exits (32 ETH,
+	// 2048 ETH), the values around 2^64/10^9 gwei (where amount*10^9 no longer fits 64
+	// bits), powers of two, the maximum and arbitrary 64-bit amounts
+	// (bigwithdrawals.go). Drawn after Collapse: worlds without the option are unaffected.
+	BigWithdrawals bool
+	// LateDestruct (opt-in, used by C32) adds to about two thirds of the worlds a
+	// contract that is CREATED by one transaction of a block (creation transaction, or
+	// CREATE2 through a genesis factory; constructor with or without SSTORE) and made to
+	// SELFDESTRUCT by later transactions of the same block (directly, or through a
+	// genesis driver contract that also pays it after the SELFDESTRUCT), sometimes by a
+	// transaction of the next block as well (latedestruct.go, World.Late). Drawn last.
+	LateDestruct bool
 }
 
 func (o *Options) defaults() {
@@ -94,6 +107,10 @@ type World struct {
 	Blocks    []*BlockPlan
 	// Collapse is the engineered branch-collapse arrangement (Options.Collapse), or nil.
 	Collapse *CollapsePlan
+	// BigWithdrawals counts the withdrawals appended by Options.BigWithdrawals.
+	BigWithdrawals int
+	// Late is the create-then-destruct-later arrangement (Options.LateDestruct), or nil.
+	Late *LatePlan
 }
 
 // Wei helpers.
@@ -295,6 +312,14 @@ func Draw(rt *rapid.T, opt Options) *World {
 	if opt.Collapse && pickW(rt, "collapse", []int{1, 1}) == 1 {
 		w.drawCollapse(rt, alloc)
 	}
+	// Opt-in additions of single checks: always drawn AFTER everything above, in this
+	// order, so that worlds drawn without them are unchanged.
+	if opt.BigWithdrawals && v.Fork >= ep.Shanghai && !opt.NoWithdrawals {
+		w.drawBigWithdrawals(rt)
+	}
+	if opt.LateDestruct {
+		w.drawLateDestruct(rt, alloc)
+	}
 	return w
 }
 
@@ -329,8 +354,16 @@ func (w *World) Describe() string {
 	if w.Collapse != nil {
 		s += "\n  " + w.Collapse.Describe()
 	}
+	if w.Late != nil {
+		s += "\n  " + w.Late.Describe()
+	}
 	for bi, bp := range w.Blocks {
 		s += fmt.Sprintf("\n  block %d coinbase=%s(%s) withdrawals=%d uncle=%v", bi+1, bp.Coinbase.Hex(), bp.CoinbaseClass, len(bp.Withdrawals), bp.Uncle != nil)
+		for _, wd := range bp.Withdrawals {
+			if wd.Amount > 1_000_000_000 {
+				s += fmt.Sprintf(" [%d gwei -> %s]", wd.Amount, wd.Address.Hex())
+			}
+		}
 		for ti, p := range bp.Txs {
 			s += fmt.Sprintf("\n    plan %d: %s", ti, p.Describe())
 		}
